@@ -6,7 +6,7 @@
    established per operation by the ledger lemmas (C02/C04/C05 blocks) and monitored on the real code
    at every step of every history; a single theorem over [run] is not proved.
    Known finding KF-ceil-window: a swap inside [kf_c01] lowers the value ([C03_refuted]). *)
-From HT Require Import Base.Prelude Num.Arith Amm.Formulas Amm.Known Proofs.ValueProofs Proofs.ValueLinks.
+From HT Require Import Base.Prelude Num.Arith Amm.Formulas Amm.Guards Amm.Known World.World Proofs.ValueProofs Proofs.ValueLinks Proofs.LedgerProofs Proofs.SystemPoolProofs.
 
 Theorem C03_step : forall s s', pool_step s s' -> 0 < supply_of s -> value_le s s' /\ 0 < supply_of s'.
 Proof. exact pool_step_value. Qed.
@@ -45,6 +45,39 @@ Proof.
     + apply pss_nil.
 Qed.
 
+(* ---- system level: the pair handlers of the world model are pool steps on the actual balances ---- *)
+Theorem C03_sys_swap : forall w p ps funds sender offer amount bp ms to w' ret spread comm T,
+  pair_swap w p ps funds sender offer amount bp ms to = Ok (w', (ret, spread, comm)) ->
+  let ask := if asset_eqb offer (p_a0 ps) then p_a1 ps else p_a0 ps in
+  let rcv := match to with Some t => t | None => sender end in
+  asset_eqb (p_a0 ps) (p_a1 ps) = false -> rcv <> p ->
+  bal w offer p < W128 -> bal w ask p < W128 -> amount < W128 -> p_comm ps <= D ->
+  kf_c01 (bal w offer p - amount) (bal w ask p) amount (p_comm ps) = false ->
+  pool_step (bal w offer p - amount, bal w ask p, T) (bal w' offer p, bal w' ask p, T).
+Proof. exact pair_swap_pool_step. Qed.
+Theorem C03_sys_withdraw : forall w p ps sender amount w' total,
+  pair_withdraw w p ps sender amount = Ok w' ->
+  asset_eqb (p_a0 ps) (p_a1 ps) = false -> asset_eqb (p_a0 ps) (AToken (p_lp ps)) = false ->
+  asset_eqb (p_a1 ps) (AToken (p_lp ps)) = false -> sender <> p ->
+  token_supply w (p_lp ps) = Ok total -> amount < total ->
+  pool_step (bal w (p_a0 ps) p, bal w (p_a1 ps) p, total)
+            (bal w' (p_a0 ps) p, bal w' (p_a1 ps) p, supply w' (p_lp ps)).
+Proof. exact pair_withdraw_pool_step. Qed.
+Theorem C03_sys_provide : forall w p ps c funds l0 n0 l1 n1 tol rcv w' total,
+  pair_provide w p ps c funds l0 n0 l1 n1 tol rcv = Ok w' ->
+  asset_eqb (p_a0 ps) (p_a1 ps) = false -> asset_eqb (p_a0 ps) (AToken (p_lp ps)) = false ->
+  asset_eqb (p_a1 ps) (AToken (p_lp ps)) = false -> c <> p ->
+  token_supply w (p_lp ps) = Ok total -> total <> 0 ->
+  exists d0 d1 q0 q1,
+    (q0 = if asset_is_native (p_a0 ps) then bal w (p_a0 ps) p - d0 else bal w (p_a0 ps) p) /\
+    (q1 = if asset_is_native (p_a1 ps) then bal w (p_a1 ps) p - d1 else bal w (p_a1 ps) p) /\
+    bal w' (p_a0 ps) p = q0 + d0 /\ bal w' (p_a1 ps) p = q1 + d1 /\
+    pool_step (q0, q1, total) (bal w' (p_a0 ps) p, bal w' (p_a1 ps) p, supply w' (p_lp ps)).
+Proof. exact pair_provide_pool_step. Qed.
+
+Print Assumptions C03_sys_swap.
+Print Assumptions C03_sys_withdraw.
+Print Assumptions C03_sys_provide.
 Print Assumptions C03_step.
 Print Assumptions C03_hist_abstract.
 Print Assumptions C03_provision_is_step.
